@@ -411,6 +411,56 @@ def text_route(oc, docs, rng):
                                    impl=o, model=r['model']))
 
 
+def sources_route(oc):
+    """C17 through the other documented ways a running order comes about: read from an S3 object, and merged by a collection
+    built from strings (with an encoding declaration the str no longer needs), from files and from S3 - script and body are
+    those of the same documents added by hand (paragraphs running over several lines, non-ASCII text, CDATA)."""
+    import warnings
+    from . import impl, coll_family
+    from mosromgr.mostypes import MosFile
+    para = 'Good evening.\nThe headlines tonight:\n  caf\u00e9 owners \u00a320\ttabbed'
+    ro_plain = TJ.to_text(B.ro_doc([B.story('A', [B.p(para), B.item('a1'), B.p('(note\nover lines)')]), B.story('B', [B.p('second\r\nstory'.replace('\r', ''))])], message_id='1'))
+    send = TJ.to_text(B.story_send('B', [B.p('Line one\nline two \u00e9'), B.item('b1'), B.p('  padded\n')], message_id='2',
+                                   pre=[E('storyNum', text='1')], post=[B.timing_md(duration='5')]))
+    for decl, enc in (('', 'utf-8'), ('<?xml version="1.0" encoding="ISO-8859-1"?>', 'iso-8859-1'), ('<?xml version="1.0" encoding="UTF-8"?>\n', 'utf-8')):
+        ro_text, send_text = decl + ro_plain, decl + send
+        with warnings.catch_warnings():
+            warnings.simplefilter('ignore')
+            ref_ro = impl.load(ro_plain)
+            ref_single = text_view(ref_ro)
+            ref_ro += impl.load(send)
+            ref_merged = text_view(ref_ro)
+        got = {}
+        # one document read from an S3 object / a file / bytes
+        raw = ro_text.encode(enc)
+        coll_family.install_fake_s3(coll_family.FakeS3({'k/ro.mos.xml': raw}))
+        for name, mk in (('s3 object', lambda: MosFile.from_s3(bucket_name='b', mos_file_key='k/ro.mos.xml')), ('bytes', lambda: MosFile.from_string(raw)),
+                         ('str with declaration', lambda: MosFile.from_string(ro_text))):
+            try:
+                with warnings.catch_warnings():
+                    warnings.simplefilter('ignore')
+                    got[name] = (text_view(mk()), ref_single)
+            except Exception as e:  # noqa: BLE001
+                got[name] = ({'crash': impl.err_name(e)}, ref_single)
+        # the two documents merged by a collection
+        for via in ('strings', 'files', 's3'):
+            o = coll_family.impl_collection([ro_text, send_text], True, False, via=via)
+            if o['err'] is None and o['run'] and o['run']['err'] is None:
+                with warnings.catch_warnings():
+                    warnings.simplefilter('ignore')
+                    got['collection from ' + via] = (text_view(impl.load(TJ.to_text(o['run']['ro']))), ref_merged)
+            else:
+                got['collection from ' + via] = ({'crash': str(o['err'] or (o['run'] or {}).get('err'))}, ref_merged)
+        for name, (view, ref) in got.items():
+            oc.evaluations += 1
+            oc.in_domain += 1
+            oc.count('sources-route')
+            if view != ref:
+                oc.failing.append({'kind': 'access-sources', 'label': f'{name}, declaration {decl[:40]!r}', 'ro_text': ro_text, 'send_text': send_text,
+                                   'spec': 'script and body of the running order do not depend on the way its documents came in (S3 object, bytes, str, collection from strings / files / S3)',
+                                   'impl': view, 'expected': ref})
+
+
 def expected_send_body(msg):
     """(story ID, body) a roStorySend must arrive as, read neutrally from the message: the children before the
     first storyBody, the storyBody's children (storyItem as item), the children after it; p -> its text or ''."""
@@ -581,6 +631,7 @@ def evaluate(pid, tier, seed):
     if pid == 'C17':
         spaces_check(oc)
         text_route(oc, [(lbl, tree) for lbl, tree, _, _ in entries[:(400 if tier == 'quick' else 4000)]], rng)
+        sources_route(oc)
     if pid == 'C16':
         numbers_check(oc, seed)
     oc.rule = {
@@ -808,6 +859,16 @@ def replay_text(pid, fl):
     res = lean.run_batch([r])[0]
     print({'impl': o, 'holds': res.get('holds')})
     if res['dom'] and ('crash' in o or res.get('holds') is not True):
+        print(f'VIOLATION property={pid} replay=(this file): still fails on the current tree')
+        return 1
+    print(f'{pid}: the recorded input no longer fails on the current tree')
+    return 0
+
+
+def replay_sources(pid, fl):
+    oc = Outcome(pid)
+    sources_route(oc)
+    if oc.failing:
         print(f'VIOLATION property={pid} replay=(this file): still fails on the current tree')
         return 1
     print(f'{pid}: the recorded input no longer fails on the current tree')
